@@ -581,6 +581,28 @@ def curated_calls(obj, rng, nodes_by_type, env=None):
         a = pick("Array2D")
         if a:
             out.append({"t": "call", "name": "convolve_image_no_blurring_interpolation", "kw": {"image": {"$node": a}}})
+    # the classmethod constructors, with the receiver's own geometry as arguments ("repeating a computation with equal inputs gives
+    # identical results"): pure functions of their arguments whatever was built or read before
+    geo = {"shape_native": {"$selfprop": "shape_native"}, "pixel_scales": {"$selfprop": "pixel_scales"}}
+    if tn in ("Array1D", "Grid1D", "Mask1D"):
+        out.append({"t": "fn", "name": "Grid1D.uniform", "kw": dict(geo, origin={"$selfprop": "origin"})})
+        out.append({"t": "fn", "name": "Grid1D.uniform", "kw": dict(geo)})
+        out.append({"t": "fn", "name": "Grid1D.uniform_from_zero", "kw": dict(geo)})
+        out.append({"t": "fn", "name": "Array1D.full", "kw": dict(geo, fill_value=rng.choice([0.0, 1.5, -2.0]), origin={"$selfprop": "origin"})})
+    if tn in ("Array2D", "Grid2D", "Mask2D", "Kernel2D", "VectorYX2D"):
+        out.append({"t": "fn", "name": "Grid2D.uniform", "kw": dict(geo, origin={"$selfprop": "origin"})})
+        out.append({"t": "fn", "name": rng.choice(["Array2D.zeros", "Array2D.ones"]), "kw": dict(geo, origin={"$selfprop": "origin"})})
+        out.append({"t": "fn", "name": "Array2D.full", "kw": dict(geo, fill_value=rng.choice([0.0, 1.5, -2.0]))})
+        out.append({"t": "fn", "name": "Mask2D.all_false", "kw": dict(geo, origin={"$selfprop": "origin"}, invert=rng.random() < 0.3)})
+        out.append({"t": "fn", "name": "Grid2D.from_extent", "kw": {"extent": _T(-1.0, 1.5, -1.25, 1.0), "shape_native": {"$selfprop": "shape_native"}}})
+        out.append({"t": "fn", "name": "Grid2D.bounding_box", "kw": {"bounding_box": [-1.0, 1.5, -1.25, 1.0], "shape_native": {"$selfprop": "shape_native"}, "buffer_around_corners": rng.random() < 0.5}})
+        out.append({"t": "fn", "name": "Kernel2D.from_gaussian", "kw": {"shape_native": kshape, "pixel_scales": {"$selfprop": "pixel_scales"}, "sigma": rng.choice([0.5, 1.0, 2.0]), "normalize": rng.random() < 0.5}})
+    if tn == "Mask2D":
+        out.append({"t": "fn", "name": "Grid2D.blurring_grid_from", "kw": {"mask": {"$self": True}, "kernel_shape_native": kshape}})
+        out.append({"t": "fn", "name": "Grid2D.from_mask", "kw": {"mask": {"$self": True}}})
+        out.append({"t": "fn", "name": "Grid2DIrregular.from_pixels_and_mask", "kw": {"pixels": [[0, 0], [1, 1]], "mask": {"$self": True}}})
+    if tn in ("Visibilities", "VisibilitiesNoiseMap"):
+        out.append({"t": "fn", "name": "Visibilities.full", "kw": {"fill_value": 1.0, "shape_slim": {"$tuple": [{"$selfprop": "shape_slim"}]}}})
     if tn in ("Imaging",):
         pass
     return [q for q in out if q is not None]
